@@ -308,6 +308,17 @@ _amend("C02", "text", "so a line is parsed, rejected, or hits one of the modelle
 _amend("C02", "note", "absence of the parser's INDEX panics is not proved;", "no panic site of the rule parser is reachable (theorem);")
 _amend("C02", "technique", "rule and alias parsers terminate on every token list; no number-parse panic)", "rule lexer + parser are total on every line (no panic site reachable); alias parser terminates on every token list)")
 
+# ---- session 4: D31 repaired, alias lexer + parser total
+_amend("C02", "text", "AliasSyntaxError on EVERY line, escapes included (Props/C02ALex), and every loop of AliasParser::parse ends on every token list (Props/C02AParse); the word parser:",
+       "AliasSyntaxError on EVERY line, escapes included (Props/C02ALex), every loop of AliasParser::parse ends on every token list (Props/C02AParse), and - after the repair of "
+       "D31 (`[Vstress] > x`: the alias lexer accepted alpha letters, the alias parser's unreachable!() was reached; fix: 696623e) - alias lexer + alias parser are TOTAL as "
+       "well: on every romaniser or deromaniser line they return the transformations or an AliasSyntaxError, none of the alias parser's index, expect() or unreachable!() "
+       "sites being reachable (Props/C02ATotal.parse_no_panic / parseLine_returns, from the token facts of ALex.lexLine_tokens_ok); the word parser:")
+_amend("C02", "note", "for the alias parser too only termination is proved (a feature with an alpha value reaches its unreachable!(): known finding D31);",
+       "no panic site of the alias parser is reachable either (theorem, after the repair of D31);")
+_amend("C02", "technique", "rule lexer + parser are total on every line (no panic site reachable); alias parser terminates on every token list)",
+       "rule lexer + parser and alias lexer + parser are total on every line (no panic site reachable))")
+
 
 def main():
     checks = []
